@@ -28,6 +28,7 @@ f64 = E("f64", "SF64")
 string = E("String", "SStr")
 unit = E("()", "SUnit")
 sbytes = E("SBytes", "SBytesD")
+refbytes = E("RefBytes", "SBytesD")
 dispstr = E("DispStr", "SStr")
 def opt(e): return E(f"Option<{e.rs}>", f"SOpt({e.tla})")
 def seq(e): return E(f"Vec<{e.rs}>", f"SSeq({e.tla})")
@@ -153,7 +154,7 @@ def direct(key, e):
 for e in (u8, u16, u32, u64, i8, i16, i32, i64):
     direct("p_" + e.rs, e)
 direct("p_bool", boolean); direct("p_char", char); direct("p_f32", f32); direct("p_f64", f64)
-direct("p_string", string); direct("p_unit", unit); direct("p_bytes", sbytes); direct("p_dispstr", dispstr)
+direct("p_string", string); direct("p_unit", unit); direct("p_bytes", sbytes); direct("p_refbytes", refbytes); direct("p_vecrefbytes", seq(refbytes)); direct("p_dispstr", dispstr)
 direct("p_optu8", opt(u8)); direct("p_optunit", opt(unit)); direct("p_optstring", opt(string)); direct("p_optvec", opt(seq(i16)))
 direct("p_vecu8", seq(u8)); direct("p_vecstring", seq(string)); direct("p_vecvec", seq(seq(u16))); direct("p_vecopt", seq(opt(boolean)))
 direct("p_useq", useq(u16)); direct("p_usequseq", useq(useq(string)))
@@ -222,7 +223,7 @@ FLU = struct("FLU", [F("a", u8), F("inner", InU, flatten=True)])
 RS_HEAD = """//! GENERATED by gen/serde2rs.py - do not edit.  The serde type family of property C17: real serde derives,
 //! the structural projection `Abs`, and the registry keyed by the names of spec/SerdeTable.tla.
 #![allow(non_snake_case, clippy::all)]
-use crate::sbridge::{sdecode_report, exercise, DispStr, SBytes, UMap, USeq};
+use crate::sbridge::{sdecode_report, exercise, DispStr, RefBytes, SBytes, UMap, USeq};
 use crate::types::Abs;
 use rand::{rngs::StdRng, Rng};
 use serde::{Deserialize, Serialize};
